@@ -435,7 +435,7 @@ def lib_adapter(which, config):
         def tr(st):
             if st["k"] == "set":
                 return ("set", {"i": st["i"]})
-            return ("drive", {(k if k == "a" else k + ".clk"): v for k, v in st["l"].items()})
+            return ("drive", {(k if k == "a" else ("o.rst" if k == "r" else k + ".clk")): v for k, v in st["l"].items()})
         return dut, doms, ins, outs, tr, extra
     else:
         from props import c16
